@@ -86,9 +86,10 @@ Definition chord_shaped (evs : list event) : bool :=
 
 Definition is_nil {A} (l : list A) : bool := match l with [] => true | _ => false end.
 
-(* is the requested time-out t (ns) what `next_wakeup - now` (or 1 ms) can be? *)
+(* is the requested time-out t (ns) what `next_wakeup - now` can be?  When the wake-up may already be due, any
+   wait of at most 1 ms (the code asks for 1 ms; C11 only says "at most") *)
 Definition timeout_ok (tol lo hi wlo whi t : Z) : bool :=
-  ((t =? ns_per_ms)%Z && (wlo - tol <=? hi)%Z)
+  ((0 <=? t)%Z && (t <=? ns_per_ms)%Z && (wlo - tol <=? hi)%Z)
   || ((lo <? whi)%Z && (wlo - hi - tol <=? t)%Z && (t <=? whi - lo + tol)%Z).
 
 Section WithModifiers.
@@ -150,7 +151,8 @@ Definition gstep (g0 : ghost) (e : tentry) : ghost * list lclause :=
     let c2 :=
       match g_rep g, to with
       | None, None => []
-      | None, Some _ => [L_C11_cancel]
+      | None, Some _ => []     (* a time-out requested while nothing repeats is not itself against C11 ("no repeat
+                                  chord is written at any other time"): a send after its TimedOut is (L_C11_only_then) *)
       | Some _, None => [L_C11_schedule]
       | Some gr, Some t => flag (negb (timeout_ok tol (te_lo e) (te_hi e) (gr_wlo gr) (gr_whi gr) t)) L_C11_schedule
       end in
